@@ -5,6 +5,7 @@ train_test_split; verde.base.utils.score_estimator, DummyEstimator;
 BaseGridder.score; verde.utils.dispatch (with real dask.delayed);
 verde.spline.SplineCV.fit / predict; real scikit-learn KFold / ShuffleSplit /
 clone; BlockKFold / BlockShuffleSplit with block_split by the C08 contract."""
+import itertools
 import warnings
 from fractions import Fraction
 
@@ -272,7 +273,7 @@ class _CVSStub:
     def __call__(self, estimator, coordinates, data, weights=None, cv=None, client=None, delayed=False, scoring=None):
         k = len(self.calls)
         scores = self.ctx.reals("score%d" % k, self.nsplits)
-        self.calls.append({"params": estimator.get_params(), "scores": scores, "weights": weights, "scoring": scoring, "cv": cv})
+        self.calls.append({"params": estimator.get_params(), "scores": scores, "coordinates": coordinates, "data": data, "weights": weights, "scoring": scoring, "cv": cv, "delayed": delayed})
         return scores
 
 
@@ -285,50 +286,69 @@ def h_splinecv(ctx):
     n = np.array([p[1] for p in pts])
     d = ctx.reals("d", len(pts))
     dampings = cfg["dampings"]
+    mindists = tuple(cfg.get("mindists", (0,)))
+    w = None
+    if cfg.get("weighted"):
+        w = ctx.reals("w", len(pts))
+        for x in w:
+            ctx.assume(x > 0)
+    scoring = cfg.get("scoring")
+    cv = KFold(n_splits=2, shuffle=True, random_state=1)
+    kw = {"cv": cv, "delayed": cfg.get("delayed", False)}
+    if scoring is not None:
+        kw["scoring"] = scoring
+    if len(mindists) > 1 or mindists[0] != 0:
+        kw["mindists"] = mindists
+    grid = list(itertools.product(mindists, dampings))  # documented search order: every (mindist, damping) combination
     stub = _CVSStub(ctx, 2)
     stubs.reset_logs()
     stubs.SCALE_CONTRACT["exact"] = False
     old = vsp.cross_val_score
     if ctx.sym:
         vsp.cross_val_score = stub
+    coords = (e, n)
     try:
         with warnings.catch_warnings():
             warnings.simplefilter("ignore")
             if cfg.get("set_params"):
                 # the grid is changed after construction: fit must search the current grid
-                scv = vd.SplineCV(dampings=(1000.0, 10.0, 7.0, 3.0), cv=KFold(n_splits=2, shuffle=True, random_state=1), delayed=cfg.get("delayed", False))
+                scv = vd.SplineCV(dampings=(1000.0, 10.0, 7.0, 3.0), **kw)
                 scv.set_params(dampings=dampings)
             else:
-                scv = vd.SplineCV(dampings=dampings, cv=KFold(n_splits=2, shuffle=True, random_state=1), delayed=cfg.get("delayed", False))
-            scv.fit((e, n), d)
+                scv = vd.SplineCV(dampings=dampings, **kw)
+            if w is None:
+                scv.fit(coords, d)
+            else:
+                scv.fit(coords, d, weights=w)
     finally:
         vsp.cross_val_score = old
-    ctx.claim("one mean score per candidate", len(scv.scores_) == len(dampings))
+    ctx.claim("one mean score per candidate", len(scv.scores_) == len(grid))
     means = [s for s in np.asarray(scv.scores_ if not cfg.get("delayed") else [x.compute() if hasattr(x, "compute") else x for x in scv.scores_], dtype=object)]
     if ctx.sym:
-        ctx.claim("every candidate is scored once, in the order of the damping grid", And(len(stub.calls) == len(dampings), all(c["params"]["damping"] == dm for c, dm in zip(stub.calls, dampings))))
+        ctx.claim("every candidate is scored once, in the order of the (mindist, damping) grid", And(len(stub.calls) == len(grid), all(c["params"]["damping"] == dm and c["params"]["mindist"] == md for c, (md, dm) in zip(stub.calls, grid))))
         for k, c in enumerate(stub.calls):
             ctx.claim("candidate's score is the mean of its cross-validation scores", eq(means[k], sum(c["scores"]) / len(c["scores"])))
-    best = [k for k, dm in enumerate(dampings) if dm == scv.spline_.damping]
-    ctx.claim("the selected model is a Spline with one of the candidate dampings", len(best) == 1 and isinstance(scv.spline_, vd.Spline) and scv.spline_.mindist == 0)
+            ctx.claim("every candidate is cross-validated on the caller's coordinates, data and weights with SplineCV's own cv, scoring and delayed settings", And(c["coordinates"] is coords, c["data"] is d, c["weights"] is w, c["cv"] is cv, c["scoring"] == scoring, bool(c["delayed"]) == bool(cfg.get("delayed", False))))
+    best = [k for k, (md, dm) in enumerate(grid) if dm == scv.spline_.damping and md == scv.spline_.mindist]
+    ctx.claim("the selected model is a Spline with one of the candidate parameter sets", len(best) == 1 and isinstance(scv.spline_, vd.Spline))
     if len(best) != 1:
         return
     b = best[0]
-    for k in range(len(dampings)):
+    for k in range(len(grid)):
         ctx.claim("the selected candidate has the highest mean cross-validated score", ge(means[b], means[k]))
-    ctx.claim("damping_/mindist_ expose the selection", And(scv.damping_ == dampings[b], scv.mindist_ == 0))
+    ctx.claim("damping_/mindist_ expose the selection", And(scv.damping_ == grid[b][1], scv.mindist_ == grid[b][0]))
     ctx.claim("the selected spline is fitted to all the data (forces at every data point)", And(np.shape(scv.spline_.force_coords_[0]) == (len(pts),), And([eq(a, b2) for a, b2 in zip(scv.spline_.force_coords_[0], e)])))
     q = (np.array([0.7, 1.9]), np.array([1.1, -0.4]))
     pa, pb = scv.predict(q), scv.spline_.predict(q)
     ctx.claim("predict delegates to the selected spline", And([eq(u, v) for u, v in zip(pa, pb)]))
     if ctx.sym:
         rg = stubs.REGRESSION_LOG[-1]
-        ctx.claim("the selected spline's solve used all the data and the selected damping", And(rg["alpha"] == dampings[b], np.shape(rg["y"]) == (len(pts),), And([eq(u, v) for u, v in zip(rg["y"], d)]), rg["w"] is None))
+        ctx.claim("the selected spline's solve used all the data, the caller's weights and the selected damping", And(rg["alpha"] == grid[b][1], np.shape(rg["y"]) == (len(pts),), And([eq(u, v) for u, v in zip(rg["y"], d)]), (rg["w"] is None) if w is None else (rg["w"] is not None and And([eq(u, v) for u, v in zip(rg["w"], w)]))))
     else:
         # replay: a plain Spline with the same parameters fitted to all the data gives the same forces
         with warnings.catch_warnings():
             warnings.simplefilter("ignore")
-            ref = vd.Spline(damping=dampings[b]).fit((e, n), d)
+            ref = vd.Spline(damping=grid[b][1], mindist=grid[b][0]).fit((e, n), d, weights=w)
         mag = max(1.0, max(abs(float(v)) for v in d))
         for u, v in zip(scv.spline_.force_, ref.force_):
             ctx.claim("predicts exactly like a Spline with those parameters fitted to all the data", CBool(abs(float(u) - float(v)) <= 1e-6 * mag * max(1.0, abs(float(v)))))
@@ -377,8 +397,8 @@ HARNESSES = [
     Harness(
         "splinecv",
         h_splinecv,
-        lambda tier, seed: [{"dampings": (1e-3, 1e-1), "delayed": True}, {"dampings": (1e-2, 1.0), "set_params": True}] + ([{"dampings": (1e-2, 1e-4, 1.0), "delayed": True}, {"dampings": (1e-3, 1e-1)}] if tier == "thorough" else []),
-        bounds="concrete 6-point layout, symbolic data; 2-3 damping candidates; the cross-validation scores of each candidate are arbitrary symbolic vectors (2 splits)",
+        lambda tier, seed: [{"dampings": (1e-3, 1e-1), "delayed": True}, {"dampings": (1e-2, 1.0), "set_params": True}, {"dampings": (1e-3, 1e-1), "mindists": (0.5, 0.25), "weighted": True, "scoring": "neg_mean_squared_error"}] + ([{"dampings": (1e-2, 1e-4, 1.0), "delayed": True}, {"dampings": (1e-3, 1e-1)}] if tier == "thorough" else []),
+        bounds="concrete 6-point layout, symbolic data, optional symbolic positive weights; 2-3 damping candidates alone or crossed with 2 mindist candidates; default or named scoring; the cross-validation scores of each candidate are arbitrary symbolic vectors (2 splits)",
         stubs=["verde.spline.cross_val_score -> symbolic score vectors (symbolic run)", "sklearn -> contracts"],
         extra_globals=_globals,
         engine={"oneshot": True},
